@@ -298,6 +298,7 @@ def generic_cases(shard: int, nshards: int) -> t.Iterator[t.Any]:
 
 
 _GT = t.TypeVar('_GT')
+_GU = t.TypeVar('_GU')
 
 
 def check_generic(case: t.Any, ctx: Ctx) -> None:
@@ -317,6 +318,39 @@ def check_generic(case: t.Any, ctx: Ctx) -> None:
         others = [G(2), G[int](2)]
     ident = f"generic dataclass with eq={eq} frozen={frozen} unsafe_hash={unsafe_hash}"
     ctx.evaluated()
+    if eq:
+        # ordering is consistent with equality: parametrizations of one class compare like the class itself
+        for (a, b, want) in ((insts[0], insts[1], 0), (insts[1], insts[2], 0), (insts[0], others[1], -1), (others[0], insts[1], 1), (insts[1], others[0], -1)):
+            (k, r) = outcome(lambda: (a < b, a <= b, a > b, a >= b))
+            if k != 'ok' or r != (want < 0, want <= 0, want > 0, want >= 0):
+                ctx.fail('order', 'generic-parameters', f"{ident}: {a!r} of {type(a).__name__}[{list(getattr(type(a), '__pane_boundvars__', {}).values())}] against {b!r} of "
+                         f"{type(b).__name__}[{list(getattr(type(b), '__pane_boundvars__', {}).values())}]: (<, <=, >, >=) = {r if k == 'ok' else type(r).__name__}, equality says {want}")
+                return
+        # ... however the parametrization was arrived at: P[str, V][int] is P[str, int]
+        P = _types.new_class('GenPair', (pane.PaneBase, t.Generic[_GT, _GU]), {'eq': eq, 'frozen': frozen, 'unsafe_hash': unsafe_hash},
+                             lambda ns: ns.update({'__annotations__': {'x': _GT, 'y': _GU}}))
+        _KEEP.append(P)
+        with warnings.catch_warnings():
+            warnings.simplefilter('ignore')
+            trio = [P[str, _GU][int]('a', 1), P[str, int]('a', 1), P('a', 1)]
+        for a in trio:
+            for b in trio:
+                if not (a == b) or (a != b) or (a < b) or not (a <= b):
+                    ctx.fail('equality', 'generic-reparametrized', f"{ident}: GenPair[str, U][int]('a', 1), GenPair[str, int]('a', 1) and GenPair('a', 1) should all be equal "
+                             f"(and neither less than another): classes {type(a).__mro__[:3]} vs {type(b).__mro__[:3]}: == {a == b}, < {outcome(lambda: a < b)[1]}")
+                    return
+        if frozen and not unsafe_hash:
+            # an explicit __hash__ / __eq__ written in the class body belongs to every parametrization too
+            H = _types.new_class('GenHash', (pane.PaneBase, t.Generic[_GT]), {'eq': eq, 'frozen': frozen},
+                                 lambda ns: ns.update({'__annotations__': {'x': _GT}, '__hash__': _user_hash}))
+            _KEEP.append(H)
+            with warnings.catch_warnings():
+                warnings.simplefilter('ignore')
+                hs_ = [hash(H(1)), hash(H[int](1)), hash(H[t.Any](1))]
+            if hs_ != [42, 42, 42]:
+                ctx.fail('eq-implies-hash', 'generic-explicit-hash', f"{ident}: class body defines __hash__ (returns 42); hash of GenHash(1), GenHash[int](1), GenHash[Any](1) = {hs_}; "
+                         f"the three compare equal: {H(1) == H[int](1)}")
+                return
     if eq:
         for a in insts:
             for b in insts:
